@@ -849,7 +849,9 @@ def do_indent(
         indention = escape(indention)
         newline = Markup(newline)
 
-    s += newline  # this quirk is necessary for splitlines method
+    # this quirk is necessary for splitlines method ("s + newline", not "+=":
+    # a list passed by mistake must not be extended in place)
+    s = s + newline
 
     if blank:
         rv = (newline + indention).join(s.splitlines())
